@@ -62,7 +62,7 @@ def sname(k):
 
 def plan(tier, seed):
     n = 16 if tier == 'quick' else 64
-    return [{'shard': i, 'configs': 12 if tier == 'quick' else 150, 'routes': 14} for i in range(n)]
+    return [{'shard': i, 'configs': 48 if tier == 'quick' else 300, 'routes': 14} for i in range(n)]
 
 
 def build(k, routes_text):
